@@ -10,11 +10,18 @@ git -C /repo worktree prune
 git -C /repo worktree add -q --detach $WT HEAD || exit 2
 cd $WT
 # demo on the unchanged tree
-gcc -I$WT/include $WT/src/*.c $DIR/demo.c -o $WT/demo_clean -lm -lpthread 2>$WT/demo_clean.err
-$WT/demo_clean > $WT/demo_clean.out 2>&1; RC_CLEAN=$?
+# a seed whose demonstration needs several build configurations brings its own run_demo.sh (library root as $1 and $ROOT)
+rundemo() { # $1 = output prefix
+  if [ -f $DIR/run_demo.sh ]; then
+    ( cd $WT && ROOT=$WT OUT=$WT/demo_out_$1 sh $DIR/run_demo.sh $WT ) > $WT/$1.out 2>&1
+  else
+    gcc -I$WT/include $WT/src/*.c $DIR/demo.c -o $WT/$1 -lm -lpthread 2>$WT/$1.err
+    $WT/$1 > $WT/$1.out 2>&1
+  fi
+}
+rundemo demo_clean; RC_CLEAN=$?
 git apply $DIR/patch.diff || { echo '{"error":"patch does not apply"}' > $DIR/confirm.json; git -C /repo worktree remove --force $WT; exit 2; }
-gcc -I$WT/include $WT/src/*.c $DIR/demo.c -o $WT/demo_mut -lm -lpthread 2>$WT/demo_mut.err
-$WT/demo_mut > $WT/demo_mut.out 2>&1; RC_MUT=$?
+rundemo demo_mut; RC_MUT=$?
 cmake -G Ninja -S $WT -B $WT/_build > $WT/cmake.log 2>&1 && cmake --build $WT/_build >> $WT/cmake.log 2>&1; RC_BUILD=$?
 ctest --test-dir $WT/_build -j4 --timeout 900 > $WT/ctest.log 2>&1; RC_TEST=$?
 SUMMARY=$(grep "tests passed" $WT/ctest.log | tail -1)
